@@ -302,6 +302,10 @@ theorem primal_monotone_partial (steps : List (Result ℝ)) (c0 : ℝ)
   runLoop_le c0 steps hchk
 
 open MjProof.PrimalSearch in
+example : ∀ r ∈ [(⟨1, 1 / 2, 0, true, 3⟩ : Result ℝ)], r.alpha ≠ 0 → r.checked = true ∧ 0 < r.improvement := by
+  intro r hr _; simp at hr; subst hr; norm_num
+
+open MjProof.PrimalSearch in
 /-- `warmstart`: the solver starts from `qacc_warmstart` unless `cost(qacc_warmstart) > cost(qacc_smooth)`, so the
     starting cost is the smaller of the two. -/
 theorem warmstart_picks_cheaper (costWarm costSmooth : ℝ) :
